@@ -271,9 +271,9 @@ fn check_partition(cx: &mut Ctx, ifc: &Iface, keys: &Keys, msg: &[u8], parts: &[
 
 pub fn run(cx: &mut Ctx) {
     let (l2, l3, l2s, l3s) = match cx.tier {
-        crate::ctx::Tier::Tiny => (40usize, 10usize, 6usize, 3usize),
+        crate::ctx::Tier::Tiny => (132usize, 9usize, 4usize, 2usize),
         crate::ctx::Tier::Quick => (400, 140, 150, 30),
-        crate::ctx::Tier::Thorough => (1100, 300, 400, 70),
+        crate::ctx::Tier::Thorough => (1100, 420, 500, 90),
     };
     let ifs = ifaces();
     // fixed key material per run (seeded), fixed message per length
@@ -305,8 +305,9 @@ pub fn run(cx: &mut Ctx) {
                 }
                 want.clone()
             };
-            // 2-way splits
-            if n <= l2i {
+            // 2-way splits (the interpreter tier keeps the short lengths and the ones around the 128-byte block boundary)
+            let tiny_skip = cx.tier == crate::ctx::Tier::Tiny && n > 20 && n < 120;
+            if n <= l2i && !tiny_skip {
                 idx += 1;
                 if cx.mine(idx) {
                     if let Some(w) = ensure(cx) {
@@ -341,7 +342,7 @@ pub fn run(cx: &mut Ctx) {
     }
 
     // random k-way partitions of long messages
-    let nrand = cx.tier.pick(4usize, 600, 20_000);
+    let nrand = cx.tier.pick(4usize, 600, 300_000);
     for i in 0..nrand {
         idx += 1;
         if !cx.mine(idx) {
